@@ -20,6 +20,14 @@ import (
 
 const VerifDir = "/verif"
 
+// OutDir is where evidence and replay files are written: /verif, or $VERIF_OUT for scratch (mutation) runs.
+func OutDir() string {
+	if d := os.Getenv("VERIF_OUT"); d != "" {
+		return d
+	}
+	return VerifDir
+}
+
 // Mismatch is one observed contradiction between the real code and the specification's
 // expectation on a concrete scenario.
 type Mismatch struct {
@@ -244,7 +252,7 @@ func (c *Ctx) Report(scenario any, ms []Mismatch) bool {
 			continue
 		}
 		h := sha1.Sum(append(raw, []byte(m.Signature)...))
-		path := filepath.Join(VerifDir, "replays", fmt.Sprintf("%s-%x.json", c.ID, h[:6]))
+		path := filepath.Join(OutDir(), "replays", fmt.Sprintf("%s-%x.json", c.ID, h[:6]))
 		rec := map[string]any{"property": c.ID, "signature": m.Signature, "detail": m.Detail, "scenario": json.RawMessage(raw)}
 		b, _ := json.MarshalIndent(rec, "", " ")
 		os.MkdirAll(filepath.Dir(path), 0o755)
@@ -298,8 +306,8 @@ func (c *Ctx) Finish() int {
 		ev["machinery_failures"] = c.broken
 	}
 	b, _ := json.MarshalIndent(ev, "", " ")
-	os.MkdirAll(filepath.Join(VerifDir, "evidence"), 0o755)
-	if err := os.WriteFile(filepath.Join(VerifDir, "evidence", c.ID+".json"), b, 0o644); err != nil {
+	os.MkdirAll(filepath.Join(OutDir(), "evidence"), 0o755)
+	if err := os.WriteFile(filepath.Join(OutDir(), "evidence", c.ID+".json"), b, 0o644); err != nil {
 		fmt.Fprintln(os.Stderr, "cannot write evidence:", err)
 		return 2
 	}
